@@ -100,6 +100,32 @@ func HostsLines(thorough bool) []Family {
 			}})
 	}
 	fams = append(fams, List("line_bytesweep", ByteSweep([]string{"1.2.3.4 host.example", "::1\tlocal.host alias # c", " fe80::1%eth0  a.b\tc.d", "1.2.3.4 a#b", "1.2.3.4"})))
+	// lines with many names (a parser that keeps the first few fields in a fixed array meets its boundary here):
+	// 6..40 names, optionally one bad name at a position around 8, 16 and 32
+	{
+		var xs []string
+		for n := 6; n <= 40; n++ {
+			for _, bad := range []int{-1, 7, 8, 15, 16, 17, 31, 32, 33, n - 1} {
+				if bad >= n {
+					continue
+				}
+				for _, sep := range []string{" ", "\t", "  "} {
+					var sb strings.Builder
+					sb.WriteString("1.2.3.4")
+					for i := 0; i < n; i++ {
+						sb.WriteString(sep)
+						if i == bad {
+							sb.WriteString("_bad")
+						} else {
+							sb.WriteString("h" + itoa(i) + ".example")
+						}
+					}
+					xs = append(xs, sb.String(), sb.String()+" # c")
+				}
+			}
+		}
+		fams = append(fams, List("line_longnames", xs))
+	}
 	// 3..5 names, sampled, with the invalid one at every index
 	fams = append(fams, Random("line_manynames", pick(300_000, 6_000_000), func(rng *rand.Rand) string {
 		var sb strings.Builder
